@@ -59,6 +59,9 @@ QUICK_DOCS = ["test-1.numbers", "test-2.numbers", "test-3.numbers", "test-format
 ACCESSOR_ERRORS: set = set()
 
 
+CORPUS = common.VERIF / "harness" / "corpus" / "C02"
+
+
 def dump(doc, touch=False):
     """Everything the library reads, as plain data."""
     from numbers_parser import ErrorCell, MergedCell
@@ -141,6 +144,9 @@ def cycle(task):
                 p0 = os.path.join(tmp, "zero.numbers")
                 build_generated(name).save(p0)
                 doc = Document(p0)
+            elif kind == "corpus":
+                # documents written by the library on a tree where the checks were silent, kept as files (harness/corpus/C02)
+                doc = Document(str(CORPUS / name))
             else:
                 doc = Document(str(REPO / "tests/data" / name) if kind == "fixture" else None)
         except Exception as e:  # noqa: BLE001  not a readable document: outside the domain
@@ -293,6 +299,7 @@ def run(ctx: Ctx):
     tasks = [("fixture", f, t) for f in fixtures for t in (False, True)]
     tasks += [("template", "(bundled template)", t) for t in (False, True)]
     tasks += [("generated", g, t) for g in ("gen-small", "gen-multi", "gen-tall", "gen-wide") for t in (False, True)]
+    tasks += [("corpus", p.name, t) for p in sorted(CORPUS.glob("*.numbers")) for t in (False, True)]
     common.run_parallel(ctx, cycle, tasks)
     string_table_correspondence(ctx)
     table_resave_correspondence(ctx)
